@@ -1124,17 +1124,27 @@ std::size_t Preprocessor::calculateHash(const std::string &toolinfo) const
     std::string hashData = toolinfo;
     for (const simplecpp::Token *tok = mTokens.cfront(); tok; tok = tok->next) {
         if (!tok->comment) {
+            // length-prefixed spelling and the full line/column so that the data determines the token
+            hashData += std::to_string(tok->str().size());
+            hashData += ':';
             hashData += tok->str();
-            hashData += static_cast<char>(tok->location.line);
-            hashData += static_cast<char>(tok->location.col);
+            hashData += std::to_string(tok->location.line);
+            hashData += ':';
+            hashData += std::to_string(tok->location.col);
+            hashData += ';';
         }
     }
     for (const auto &filedata : mFileCache) {
         for (const simplecpp::Token *tok = filedata->tokens.cfront(); tok; tok = tok->next) {
             if (!tok->comment) {
+                // length-prefixed spelling and the full line/column so that the data determines the token
+                hashData += std::to_string(tok->str().size());
+                hashData += ':';
                 hashData += tok->str();
-                hashData += static_cast<char>(tok->location.line);
-                hashData += static_cast<char>(tok->location.col);
+                hashData += std::to_string(tok->location.line);
+                hashData += ':';
+                hashData += std::to_string(tok->location.col);
+                hashData += ';';
             }
         }
     }
